@@ -599,6 +599,7 @@ def workqueue(chk, P, L):
             inloop = [m for m in mk if _in_loop(tb, m[0])]
             chk.judge(len(inloop) == 1 and any(c[0] == inloop[0][0] for c in clr), "PAIRCALL", "worker:flag-cleared-with-completion", tb.loc,
                       "inside the loop the flag is cleared in the same block as markTaskCompleted (exactly one decrement per task)")
+    drain(chk, P, L, tb)
     # addTask: ++pending only with push
     at = P.fn(PWQ + "::addTask")
     push = [(b, i, e) for b, i, e in at.calls() if e.get("fn", "").endswith("::push") and field_of(call_obj(e)) == PWQ + "::taskQueue"]
@@ -634,11 +635,90 @@ def workqueue(chk, P, L):
     chk.floor("PAIRCALL", 22)
 
 
+def drain(chk, P, L, tb):
+    """The worker may leave its loop only after an emptiness test found the queue empty: otherwise tasks still queued when the
+    owner is destroyed are never executed.  Path search with constant propagation of the local bool flags that the loop
+    condition tests (so that `done` is known false on the path that just took a task)."""
+    waits = [(b, i, e) for b, i, e, cv, m, lam in L.wait_sites(tb) if cv == PWQ + "::waitForTaskCondition"]
+    chk.judge(len(waits) == 1, "PAIRCALL", "worker:one-wait", tb.loc, "one wait for work")
+    if not waits:
+        return
+    def empty_edge():
+        res = set()
+        for b, blk in tb.blocks.items():
+            t = blk.get("term")
+            if not t or "cond" not in t or len(blk["succ"]) < 2:
+                continue
+            c = t["cond"]
+            neg = False
+            # for a short-circuit block clang reports the operand evaluated last; for the final block the whole expression
+            if isinstance(c, list) and c[0] == "op" and c[1] in ("||", "&&"):
+                c = c[3]
+            if isinstance(c, list) and c[0] == "un" and c[1] == "!":
+                neg = True
+                c = c[2]
+            if isinstance(c, list) and c[0] == "call" and c[1].endswith("::empty") and L.resolve_field(tb, c[2]) == PWQ + "::taskQueue":
+                res.add((b, blk["succ"][1] if neg else blk["succ"][0]))
+        return res
+    ee = empty_edge()
+    chk.judge(bool(ee), "PAIRCALL", "worker:emptiness-test", tb.loc, "the worker tests taskQueue.empty()")
+    flags = {d["var"]: ("true" if _is_lit(d["init"], "true") else "false") for _, _, d in tb.events(lambda d: d["k"] == "decl" and d["ty"] == "bool" and d["init"] is not None and
+                                                                                                  (_is_lit(d["init"], "true") or _is_lit(d["init"], "false")))}
+    wb, wi, we = waits[0]
+    seen = set()
+    stack = [(wb, wi + 1, tuple(sorted(flags.items())), (wb,))]
+    bad = None
+    while stack and bad is None:
+        b, i, st, path = stack.pop()
+        if (b, i, st) in seen:
+            continue
+        seen.add((b, i, st))
+        env = dict(st)
+        blk = tb.blocks[b]
+        stop = False
+        for j in range(i, len(blk["ev"])):
+            e = blk["ev"][j]
+            if e["k"] == "call" and e.get("fn", "").startswith("std::condition_variable::wait"):
+                stop = True   # next round
+                break
+            if e["k"] == "assign" and e["lhs"][0] == "var" and e["lhs"][1] in env:
+                env[e["lhs"][1]] = "true" if _is_lit(e["rhs"], "true") else "false" if _is_lit(e["rhs"], "false") else "?"
+            if e["k"] == "ret" or e["k"] == "throw":
+                stop = True
+        if stop:
+            continue
+        if b == tb.exit:
+            bad = list(path)
+            break
+        succ = blk["succ"]
+        t = blk.get("term")
+        feasible = [s for s in succ if s >= 0]
+        if t and "cond" in t and len(succ) >= 2:
+            c = t["cond"]
+            if isinstance(c, list) and c[0] == "op" and c[1] in ("||", "&&"):
+                c = c[3] if (isinstance(c[3], list) and (c[3][0] == "var" or (c[3][0] == "un" and c[3][2][0] == "var"))) else c
+            neg = False
+            if isinstance(c, list) and c[0] == "un" and c[1] == "!":
+                neg, c = True, c[2]
+            if isinstance(c, list) and c[0] == "var" and c[1] in env and env[c[1]] in ("true", "false"):
+                val = (env[c[1]] == "true") != neg
+                feasible = [succ[0]] if val else [succ[1]]
+        for s2 in feasible:
+            if s2 < 0 or (b, s2) in ee or (b, s2) in tb.infeasible_edges():
+                continue
+            stack.append((s2, 0, tuple(sorted(env.items())), path + (s2,)))
+    chk.judge(bad is None, "PAIRCALL", "worker:exit-only-when-queue-empty", "%s:%d" % (tb.file, we["line"]),
+              "the worker can leave its loop on a path that never found the queue empty: tasks still queued at destruction would never run", bad)
+
+
 # --------------------------------------------------------------- mutations
 _PE = "SimTKcommon/src/ParallelExecutor.cpp"
 _WQ = "SimTKcommon/src/ParallelWorkQueue.cpp"
 _2D = "SimTKcommon/src/Parallel2DExecutor.cpp"
 MUTATIONS = [
+    dict(name="seeded (sub-agent): worker exits as soon as finished is set, leaving queued tasks", file=_WQ,
+         old="        else {\n            // Woken with nothing queued: the queue is finished and drained.\n            // (Decided here, with the mutex held, not in the loop condition.)\n            done = true;\n        }\n",
+         new="        done = owner.isFinished();\n", expect="worker:exit-only-when-queue-empty"),
     dict(name="worker reads the exit flag after unlocking (pre-fix code)", arm=True, file=_PE,
          old="        finished = executor.isFinished();\n        lock.unlock();", new="        lock.unlock();\n        finished = executor.isFinished();",
          expect="LOCKSET:SimTK::ParallelExecutorImpl::finished@SimTK::threadBody"),
